@@ -11,6 +11,8 @@ comparator in Props/C06Tie.
 import AdaptaVerif.Gen.Comparators
 import AdaptaVerif.Lemmas.StrictWeakOrder
 import AdaptaVerif.Model.Scanline
+import AdaptaVerif.Gen.Makepath
+import AdaptaVerif.Model.RouteCost
 namespace AdaptaVerif.Props.C20Tie
 open AdaptaVerif.Gen.Comparators AdaptaVerif.Model.CmpKeys AdaptaVerif.Lemmas.SWO
 open AdaptaVerif.Model.Geometry (Pt)
@@ -157,6 +159,14 @@ theorem shapePairLt_strict_weak_order : IsSWO shapePairLess := by
 theorem shapePairLt_equiv_iff_equal (a b : ShapePairKey) : Incomp shapePairLess a b ↔ a = b := by
   rw [gen_shapePairLt_is_lex, incomp_cmpBy, incomp_cmpBy]
   cases a; cases b; simp [incomp_false]
+
+/-! ### `dimDirection` (makepath.cpp) — the sign function of the reverse-direction rule of `cost()` -/
+
+/-- the `dimDir` of the Lean model of the reverse-direction rule (Model/RouteCost.lean, proved frame-invariant in
+    Props/C20.lean) is the `dimDirection` regenerated from the source -/
+theorem gen_dimDirection_is_dimDir (d : Rat) :
+    AdaptaVerif.Gen.Makepath.dimDirection d = AdaptaVerif.Model.RouteCost.dimDir d := by
+  simp only [AdaptaVerif.Gen.Makepath.dimDirection, AdaptaVerif.Model.RouteCost.dimDir, gt_iff_lt, decide_eq_true_eq]
 
 /-! ### non-vacuity -/
 example : cmpNodePos ⟨1, 2, 100⟩ ⟨1, 3, 50⟩ = true ∧ cmpNodePos ⟨1, 2, 10⟩ ⟨1, 3, 500⟩ = true := by decide
